@@ -240,3 +240,54 @@ Proof.
   intros ty v H. unfold compile_const. destruct (check_const ty v) as [k|e] eqn:E; cbn [bind]; [|eauto].
   exfalso. pose proof (check_const_ok_only_ty _ _ _ E). subst. apply H. apply check_const_ok_iff. exact E.
 Qed.
+
+(* ---- a constant is typed once (operands, augmented assignment, generic arguments) ---- *)
+Lemma synth_const_cases : forall v,
+  (in_range_lit KInt v /\ synth_const v = Ok KInt) \/
+  (~ in_range_lit KInt v /\ exists b, synth_const v = Raise (IntOverflowError true b (v <? 0))).
+Proof.
+  intros v. unfold synth_const.
+  destruct (ibc_cases v true) as [[H E] | [[H [b E]] | [H [b E]]]]; unfold lo, hi in H;
+    unfold literal_type; cbn [andb]; rewrite E; cbn [bind].
+  - left. split; [cbn; lia | reflexivity].
+  - right. split; [cbn; lia |]. exists b. destruct (v <? 0) eqn:L; [reflexivity | lia].
+  - right. split; [cbn; lia |]. exists b. destruct (v <? 0) eqn:L; [lia | reflexivity].
+Qed.
+
+Lemma check_operand_ok : forall param v k, check_operand param v = Ok k ->
+  k = KInt /\ param = KInt /\ in_range_lit KInt v.
+Proof.
+  intros param v k H. unfold check_operand in H.
+  destruct (synth_const_cases v) as [[R E] | [R [b E]]]; rewrite E in H; cbn [bind] in H; [|discriminate].
+  unfold check_typed, check_type_against in H. destruct param; cbn in H; [discriminate|]. inversion H. auto.
+Qed.
+
+Lemma check_operand_int : forall v, in_range_lit KInt v -> check_operand KInt v = Ok KInt.
+Proof.
+  intros v R. unfold check_operand. destruct (synth_const_cases v) as [[_ E] | [N _]]; [|contradiction].
+  rewrite E. reflexivity.
+Qed.
+
+Lemma check_operand_nat : forall v, in_range_lit KInt v ->
+  check_operand KNat v = Raise (TypeMismatchError KNat KInt).
+Proof.
+  intros v R. unfold check_operand. destruct (synth_const_cases v) as [[_ E] | [N _]]; [|contradiction].
+  rewrite E. reflexivity.
+Qed.
+
+Lemma compile_operand_int : forall v, in_range_lit KInt v ->
+  compile_operand v = Ok (IntVal v INT_WIDTH) /\
+  compile_operand_payload v = Ok (6, if v <? 0 then 18446744073709551616 + v else v).
+Proof.
+  intros v R. unfold compile_operand_payload, compile_operand.
+  destruct (synth_const_cases v) as [[_ E] | [N _]]; [|contradiction]. rewrite E. cbn [bind].
+  split; [reflexivity | exact (payload_int v R)].
+Qed.
+
+Lemma operand_overflow : forall param v, ~ in_range_lit KInt v ->
+  exists b, check_operand param v = Raise (IntOverflowError true b (v <? 0)) /\
+            compile_operand v = Raise (IntOverflowError true b (v <? 0)).
+Proof.
+  intros param v N. unfold check_operand, compile_operand.
+  destruct (synth_const_cases v) as [[R _] | [_ [b E]]]; [contradiction|]. exists b. rewrite E. split; reflexivity.
+Qed.
